@@ -10,9 +10,10 @@ import (
 // ---- C02: reply monitor ---------------------------------------------------
 
 type replyState struct {
-	prog   int
-	finals int
-	first  string
+	prog     int
+	finals   int
+	first    string
+	firstSeq int // scheduling step at which the first final reply arrived
 }
 
 // CheckReplies runs the at-most-one-final-reply automaton over every
@@ -28,11 +29,13 @@ func CheckReplies(c *Ctx, clients []*TClient) map[*TClient]map[wamp.ID]*replySta
 			issued[cr.Req] = cr
 		}
 		// requests that were sent at all (also those the router never took)
+		chunkSeq := map[wamp.ID][]int{} // request -> steps at which its CALL chunks were handed over
 		for _, o := range cl.Out {
 			if call, ok := o.Msg.(*wamp.Call); ok {
 				if _, ok := issued[call.Request]; !ok {
 					issued[call.Request] = &CallRec{Req: call.Request}
 				}
+				chunkSeq[call.Request] = append(chunkSeq[call.Request], o.Seq)
 			}
 		}
 		for _, r := range cl.Inbox {
@@ -62,7 +65,20 @@ func CheckReplies(c *Ctx, clients []*TClient) map[*TClient]map[wamp.ID]*replySta
 				s = &replyState{}
 				st[req] = s
 			}
-			if s.finals > 0 {
+			// A progressive call invocation: a further CALL chunk under the same
+			// request id that the caller handed over before it could have seen
+			// the final reply to the earlier chunks is, for the router, a call
+			// of its own once the first one has ended, and is answered as such.
+			allowed := 0
+			for _, q := range chunkSeq[req] {
+				if s.finals == 0 || q < s.firstSeq {
+					allowed++
+				}
+			}
+			if allowed < 1 {
+				allowed = 1
+			}
+			if s.finals > 0 && s.finals >= allowed {
 				c.Violf("caller %s received %s for request %d after the final reply %s", cl.Name, Brief(r.Msg), req, s.first)
 				c.Probe("reply_after_final")
 			}
@@ -70,6 +86,7 @@ func CheckReplies(c *Ctx, clients []*TClient) map[*TClient]map[wamp.ID]*replySta
 				s.finals++
 				if s.first == "" {
 					s.first = Brief(r.Msg)
+					s.firstSeq = r.Seq
 				}
 			} else {
 				s.prog++
